@@ -434,6 +434,9 @@ func init() {
 				meta.GoViolation = append(meta.GoViolation, map[string]any{"signature": "panic", "cases": []any{c}, "go_observation": o, "judgement": "ValidateRequest panicked"})
 			}
 		}
+		if replay == "" {
+			c07Loaded(meta)
+		}
 		meta.NCases = len(cases)
 		meta.Files = writeCases(outDir, "From KV Require Import Model.Base Model.Request Exec.C07Exec.", "c07case", "judge", terms, meta.Shard)
 		writeMeta(outDir, meta)
